@@ -31,7 +31,7 @@ def scripts(rng, tier, n=None):
     n = n or (40 if tier == "quick" else 600)
     for k in range(n):
         ssrc = rng.randrange(2, 1 << 32)
-        p = rand_policy(rng, ssrc=ssrc, valid=True)
+        p, ext_p = strat_policy(rng, k, ssrc=ssrc, valid=True)
         # a third of the scripts use wildcard policies on both sides: the streams that do the work are clones of
         # the template (srtp_stream_clone copies services, keys, MKI setting, window size), several SSRCs
         wild = rng.random() < 0.35
@@ -43,7 +43,7 @@ def scripts(rng, tier, n=None):
         seq = rng.choice([0, 1, 65533, 30000])
         for i in range(8 if tier == "quick" else 30):
             big = tier != "quick" and rng.random() < 0.05
-            pkt = rand_rtp(rng, rng.choice(ssrcs), seq & 0xffff, ids=list(p.enc_xtn) or None, big=big)
+            pkt = rand_rtp(rng, rng.choice(ssrcs), seq & 0xffff, ids=list(p.enc_xtn) or None, big=big, ext_p=ext_p)
             seq += rng.choice([1, 1, 2, 5])
             mi = rng.randrange(len(p.keys)) if p.use_mki else 0
             L.append(pkt_op("protect", 1, pkt, cap=len(pkt) + p.trailer(), mode=rng.choice([0, 1, 2]), mki_index=mi)); a = len(L)
